@@ -3,6 +3,12 @@
 # usage: tools/sweep.sh <tier> <seed>...
 cd "$(dirname "$0")/.."
 TIER=$1; shift
+# in a `vp run --with-repo` snapshot build against the snapshot of the repository, so that patches
+# applied to /repo meanwhile (seed experiments) cannot disturb the sweep
+if [ -n "${VP_RUN_REPO:-}" ] && [ "$(pwd)" != /verif ]; then
+  sed -i "s#path = \"/repo\"#path = \"$VP_RUN_REPO\"#" harness/Cargo.toml
+  echo "sweep builds against $VP_RUN_REPO"
+fi
 for seed in "$@"; do
   for i in $(seq -w 1 20); do
     out=$(VERIF_SEED=$seed ./check C$i --tier $TIER 2>&1); rc=$?
